@@ -23,6 +23,7 @@ from evoverif.fsmodel import FS, Crash
 from . import common
 
 PROPERTY = "C19"
+LEVEL = "model_checking"
 FUNCTIONS = ["evo/tools/settings.py module code (initialize_if_needed, update_if_outdated, SettingsContainer.from_json_file at import time)",
              "settings.reset", "settings.write_to_json_file", "settings.merge_dicts", "main_config.set_config", "main_config.merge_json_union"]
 BOUNDS = {"quick": "<= 40 file-system steps per operation, 1 crash (every step; a cut write leaves nothing or half), then 1 fresh start; "
